@@ -478,3 +478,18 @@ RULES.append(('07.A', 'enum accessors agree across sibling variants: an accessor
 RULES.append(('07.G', 'guard census: no reviewed call of a workspace function and no reviewed mutation of a stored collection gained a controlling branch condition (an added `&& cond`, early return / continue, more specific match arm in front of an act); counts per call site, name free (rules/guards.py)', lambda F: guards.for_property(F, 'C07', '07.G')))
 RULES.append(('07.W', 'field assignments: every reviewed (function, Type.field) direct assignment is still made - state that a path no longer updates, or updates only conditionally (get_or_insert for an overwrite); generalises NN.R (rules/writes.py)', lambda F: writes.for_property(F, 'C07', '07.W')))
 RULES.append(('07.N', 'arithmetic census: per reviewed function the number of operations per (group: add/sub, mul, div, rem, shift, bit, min, max, div_ceil ...; flavour: plain / checked / saturating / wrapping) is unchanged - a dropped or added `+ 1`, a rounding direction, saturating for checked, min for max (rules/arith.py; value arithmetic itself is not decided)', lambda F: arith.for_property(F, 'C07', '07.N')))
+
+def r07o(F):
+	"""a claim split by a counterparty spend and merged back by a reorg is re-queued in its CURRENT state: 06.h's overwrite clause, re-labelled - an
+	earlier snapshot kept for the (re)broadcast orphans every further resurrected outpoint of the same request, which is then never claimed again
+	(an HTLC output we are entitled to is not recovered)"""
+	import C06
+	out = []
+	for r in C06.r06h(F):
+		if 'bump-candidates' in r.key or 'overwrit' in r.key:
+			r.rule = '07.o'
+			out.append(r)
+	if not out:
+		out.append(Result('07.o', False, 'anchor:bump-candidates', 'blocks_disconnected: the overwrite clause of 06.h was not found'))
+	return out
+RULES.append(('07.o', 'blocks_disconnected re-queues a merged-back claim in its current state (06.h overwrite clause under C07)', r07o))
